@@ -877,9 +877,31 @@ def _retain_drops_only_same_file(prog, b, c):
     if cb is None or cb.loops():
         return False
     ret = Origins(cb).of_place({"l": 0, "p": []})
+    # `canonicalize(p).map_or(true, |c| seen.insert(c))`: true when there is no canonical path, else what the closure returns for it
+    mo = [x for x in ret if x[0] == "call" and x[2] in ("core::result::Result::map_or", "core::option::Option::map_or", "core::result::Result::is_ok_and")]
+    for x in mo:
+        t = cb.blocks[x[1]]["term"]
+        recv, dflt, fn = (t["args"] + [None, None])[:3] if x[2].endswith("map_or") else (t["args"][0], {"k": "const", "bool": False, "ty": "bool"}, t["args"][1])
+        if x[2].endswith("map_or") and not (dflt["k"] == "const" and dflt.get("bool") is True):
+            return False
+        if x[2].endswith("is_ok_and"):
+            return False                     # a path without a canonical form would be dropped
+        ro = Origins(cb, extra_identity={"core::result::Result::as_ref", "core::option::Option::as_ref"}).of_operand(recv)
+        if not ro or not all(y[0] == "call" and y[2] in ("std::path::Path::canonicalize", "std::fs::canonicalize") for y in ro):
+            return False
+        c2 = prog.body(norm(cb.locals[fn["place"]["l"]].get("closure") or "")) if fn["k"] in ("copy", "move") else None
+        if c2 is None or c2.loops():
+            return False
+        r2 = Origins(c2).of_place({"l": 0, "p": []})
+        if not r2 or not all(y[0] == "call" and y[2].endswith("HashSet::insert") for y in r2):
+            return False
+        for y in r2:
+            ka = c2.blocks[y[1]]["term"]["args"][1]
+            if not all(z[0] == "param" for z in Origins(c2).of_operand(ka)):
+                return False
     ins = [x for x in ret if x[0] == "call" and x[2].endswith("HashSet::insert")]
-    rest = [x for x in ret if x not in ins]
-    if not ins or not all(x[0] == "const" and x[1] == "bool" and x[2] is True for x in rest):
+    rest = [x for x in ret if x not in ins and x not in mo]
+    if not (ins or mo) or not all(x[0] == "const" and x[1] == "bool" and x[2] is True for x in rest):
         return False
     fam = [cb] + [y for y in prog.bodies.values() if y.npath.startswith(cb.npath + "::")]
 
@@ -953,12 +975,14 @@ def c18f(prog, rep):
         for c in b.calls():
             cal = c.callee or ""
             if cal.startswith(("core::iter::", "itertools::", "rayon::iter::")) and cal.split("::")[-1] in ITER_DROPPERS:
+                if cal.split("::")[-1] == "next" and c.bb in b.loops():
+                    continue                # the `next()` that drives a `for` loop visits every element
                 drops.append((b, c))
     m = 0
     for b, c in drops:
         nm = c.callee.split("::")[-1]
         ok = False
-        if nm == "filter_map" and len(c.args) >= 2 and c.args[1]["k"] in ("copy", "move"):
+        if nm in ("filter_map", "filter") and len(c.args) >= 2 and c.args[1]["k"] in ("copy", "move"):
             clos = b.locals[c.args[1]["place"]["l"]].get("closure")
             cb = prog.body(norm(clos)) if clos else None
             if cb is not None:
@@ -966,7 +990,7 @@ def c18f(prog, rep):
                 # recognised extension, or it is a directory (a directory can be named like a source file); errors are passed on
                 from table import Table, TooComplex, render
                 try:
-                    tb = Table(prog, cb, inline=0)
+                    tb = Table(prog, cb, inline=1, opaque=("formattable_file_path", "is_dir", "is_file", "path", "file_type"))
                 except TooComplex:
                     tb = None
                 ok = tb is not None and len(tb.rows) >= 3
@@ -976,11 +1000,18 @@ def c18f(prog, rep):
                     fmt = [v for k2, v in cd.items() if k2.startswith("formattable_file_path(")]
                     isdir = [(k2.startswith("!"), v) for k2, v in cd.items() if re.match(r"^!?is_dir\(", k2)]
                     a_dir = bool(isdir) and ((isdir[0][1] != 0) != isdir[0][0])
-                    if r == "None":
+                    dropped = r == "None" if nm == "filter_map" else r == "False"
+                    kept = r.startswith("Some(") if nm == "filter_map" else r == "True"
+                    if nm == "filter" and re.match(r"^(sym:)?(!is_dir|is_file)\(", r):
+                        # the verdict IS the test: kept iff the entry is not a directory (both outcomes are acceptable ones)
+                        ok &= bool(fmt) and fmt[0] != 0 and any(x[0] == "is" and x[2] == "Ok" for x in cons)
+                        rep.check(True, "C18.h", "walked-entries-are-files:%s" % short(b.npath), "", instance={"row": ["kept iff " + r[:40]]})
+                        continue
+                    if dropped:
                         ok &= (bool(fmt) and fmt[0] == 0) or a_dir
-                    elif r.startswith("Some(") and any(x[0] == "is" and x[2] == "Err" for x in cons):
+                    elif kept and any(x[0] == "is" and x[2] == "Err" for x in cons):
                         pass                        # a walk error is passed on
-                    elif r.startswith("Some(") and any(x[0] == "is" and x[2] == "Ok" for x in cons):
+                    elif kept and any(x[0] == "is" and x[2] == "Ok" for x in cons):
                         ok &= bool(fmt) and fmt[0] != 0
                         # C18.h — what the walk hands to the workers is a file: a directory whose NAME has a recognised extension is not a
                         # failing file (the exit status is non-zero iff a FILE failed)
